@@ -41,19 +41,21 @@ FRun(r, ri, d) ==
       cus == CustomOps(o.evs)
       calls == Calls(o.eff)
       plain == PlainOps(o.evs)
-      want == IF r.on.dok /\ ~Mentions(r.tree, "h") THEN AppSeq(r.on.dtree, env) ELSE <<>>
+      want == IF r.on.dok /\ ~Mentions(r.tree, "h") /\ ~Mentions(r.tree, "boom") THEN AppSeq(r.on.dtree, env) ELSE <<>>
+      \* a panic of a registered operator is the operator's: the engine must treat it alike with and without events
+      samePanic == IsPanic(o.res) /\ IsPanic(run.off) /\ o.res.msg = run.off.msg
       loops == Loops(o.evs)
       mk(sig) == {<<"C12", r.id, ri, d, sig>>}
-  IN (IF IsPanic(o.res) THEN mk("panic") ELSE {})
+  IN (IF IsPanic(o.res) /\ ~samePanic THEN mk("panic") ELSE {})
      \cup
      \* enabling events never changes the result
-     (IF ~IsPanic(o.res) /\ ~OutcomeEq(o.res, run.off) THEN mk("result-changed") ELSE {})
+     (IF ~IsPanic(o.res) /\ (IsPanic(run.off) \/ ~OutcomeEq(o.res, run.off)) THEN mk("result-changed") ELSE {})
      \cup
      \* OP_EXEC events of registered operators = the calls the instrumented operators saw
      \* in this very evaluation: name, arguments as at call time, result or error
-     (IF Len(cus) # Len(calls) \/
+     (IF ~IsPanic(o.res) /\ (Len(cus) # Len(calls) \/
          \E i \in 1..(IF Len(cus) < Len(calls) THEN Len(cus) ELSE Len(calls)) :
-            cus[i].n # calls[i].n \/ ~ParamsEq(cus[i].ps, calls[i].ps) \/ ~OutcomeEq(cus[i].r, calls[i].r)
+            cus[i].n # calls[i].n \/ ~ParamsEq(cus[i].ps, calls[i].ps) \/ ~OutcomeEq(cus[i].r, calls[i].r))
       THEN mk("custom-ops") ELSE {})
      \cup
      \* every built-in OP_EXEC event is self-consistent: result = operator(arguments)
@@ -62,7 +64,7 @@ FRun(r, ri, d) ==
      \cup
      \* the applications (other than and/or's own) are exactly those of left-to-right
      \* short-circuit evaluation of the decompiled program, in order
-     (IF r.on.dok /\ ~Mentions(r.tree, "h") /\ VarsOf(r.tree) \subseteq DOMAIN env /\
+     (IF r.on.dok /\ ~Mentions(r.tree, "h") /\ ~Mentions(r.tree, "boom") /\ VarsOf(r.tree) \subseteq DOMAIN env /\
          (Len(plain) # Len(want) \/
           \E i \in 1..(IF Len(plain) < Len(want) THEN Len(plain) ELSE Len(want)) :
              plain[i].n # want[i].n \/ ~ParamsEq(plain[i].ps, want[i].ps) \/ ~OutcomeEq(plain[i].r, want[i].r))
@@ -102,10 +104,12 @@ FLine(r) ==
   \cup
   \* TryEval: same result with events on; its OP_EXEC events are self-consistent and match the calls
   UNION {LET run == r.runs[ri]  o == run.tryon  ops == Ops(o.evs)  loops == Loops(o.evs) IN
-         (IF IsPanic(o.res) \/ ~OutcomeEq(o.res, run.tryoff) THEN {<<"C12", r.id, ri, "try", "result-changed">>} ELSE {})
+         (IF (IsPanic(o.res) # IsPanic(run.tryoff)) \/ (IsPanic(o.res) /\ o.res.msg # run.tryoff.msg) \/
+             (~IsPanic(o.res) /\ ~OutcomeEq(o.res, run.tryoff))
+          THEN {<<"C12", r.id, ri, "try", "result-changed">>} ELSE {})
          \cup (IF \E i \in Idx(ops) : ops[i].n \notin CustomNames /\ ~OutcomeEq(ApplyAny(ops[i].n, ops[i].ps), ops[i].r)
                THEN {<<"C12", r.id, ri, "try", "op-inconsistent">>} ELSE {})
-         \cup (IF Len(CustomOps(o.evs)) # Len(Calls(o.eff)) THEN {<<"C12", r.id, ri, "try", "custom-ops">>} ELSE {})
+         \cup (IF ~IsPanic(o.res) /\ Len(CustomOps(o.evs)) # Len(Calls(o.eff)) THEN {<<"C12", r.id, ri, "try", "custom-ops">>} ELSE {})
          \cup (IF \E i \in 1..(Len(loops) - 1) : loops[i + 1].pos <= loops[i].pos
                THEN {<<"C12", r.id, ri, "try", "loop-order">>} ELSE {})
          \cup (IF ~LoopStackConsistent(o.evs) THEN {<<"C12", r.id, ri, "try", "loop-stack-is-not-the-operand-stack">>} ELSE {})
@@ -133,7 +137,7 @@ Drifts(r) ==
   UNION {LET run == r.runs[ri]
              s == RunEv(r.on.prog, r.envs[run.e], TRUE)
              evs == run.sync.evs
-         IN IF ~Mentions(r.tree, "h") /\
+         IN IF ~Mentions(r.tree, "h") /\ ~Mentions(r.tree, "boom") /\
                (s.st # "done" \/ Len(s.out) # Len(evs) \/
                 \E i \in 1..(IF Len(s.out) < Len(evs) THEN Len(s.out) ELSE Len(evs)) :
                    s.out[i].k # evs[i].k \/ (s.out[i].k = "loop" /\ s.out[i].pos # evs[i].pos))
